@@ -293,3 +293,42 @@ for _T in (SStr, SBytes):
         METHODS.setdefault((T, "removesuffix"), _removesuffix)
 
     _mk_remove(_T)
+
+
+# ---------------------------------------------------------------------------------------------------------------------
+# int(str) for signed decimal text (opt-in: scenario option int_signed=True): "-" digits is converted exactly
+# (the default model converts plain digit strings exactly and leaves everything else to an uninterpreted parser)
+
+def _mk_int_signed():
+    default_int = FUNCTIONS[id(int)][1]
+    digit = z3.Range("0", "9")
+    lenient = z3.Star(z3.Union(digit, *[z3.Re(z3.StringVal(c)) for c in " \t\n\r\x0b\x0c+_-"]))
+
+    def facts(it, digits_term):
+        n = z3.StrToInt(digits_term)
+        it.ex.assume(n >= 0)
+        it.ex.assume((n == 0) == z3.InRe(digits_term, z3.Plus(z3.Re(z3.StringVal("0")))))
+        it.ex.note("lemma", "decimal value of a digit string is >= 0, and 0 exactly for strings of zeros")
+        return n
+
+    def f_int_signed(it, x=None, base=None):
+        if x is not None and base is None and _opt(it, "int_signed"):
+            xv = it.resolve(x)
+            if isinstance(xv, (SStr, SBytes)) and xv.concrete() is None:
+                if it.branch(SBool(z3.InRe(xv.t, z3.Plus(digit)))):
+                    return SInt(facts(it, xv.t))
+                neg = z3.InRe(xv.t, z3.Concat(z3.Re(z3.StringVal("-")), z3.Plus(digit)))
+                if it.branch(SBool(neg)):
+                    it.ex.note("lib", "int('-' digits) (exact)")
+                    return SInt(-facts(it, z3.SubString(xv.t, 1, z3.Length(xv.t) - 1)))
+                # what int() accepts beyond that, for ASCII text: sign, blanks, underscores around/between digits only
+                ok = uf("int_parsable_nondigit", _S, _B)(xv.t)
+                it.ex.assume(z3.Implies(z3.And(ok, z3.InRe(xv.t, _ASCII_RE)), z3.InRe(xv.t, lenient)))
+                it.ex.note("assumed", "int(text) accepts an ASCII text only if it consists of digits, sign, underscores and blanks")
+        return default_int(it, x, base)
+
+    f_int_signed.__name__ = "f_int"
+    FUNCTIONS[id(int)] = (int, f_int_signed)
+
+
+_mk_int_signed()
